@@ -176,6 +176,8 @@ class Parameter(AbstractParameter):
             parameter['eye'] = kwargs['eye']
         elif 'eye_like' in kwargs:
             parameter['eye_like'] = kwargs['eye_like']
+        elif 'arange' in kwargs:
+            parameter['arange'] = kwargs['arange']
         elif 'tensor' in kwargs:
             parameter['tensor'] = kwargs['tensor']
 
@@ -272,6 +274,8 @@ class Parameter(AbstractParameter):
         kwargs['requires_grad'] = data.get('requires_grad', False)
 
         if 'full_like' in data:
+            if dtype:
+                kwargs['dtype'] = dtype
             input_param = process_object(data['full_like'], dic)
             if 'rand' in data:
                 t = tensor_rand(data['rand'], input_param.shape, **kwargs)
@@ -281,13 +285,17 @@ class Parameter(AbstractParameter):
         elif 'full' in data:
             if dtype:
                 kwargs['dtype'] = dtype
-            size = data['full']  # a list
+            size = data['full']  # an int or a list
+            if isinstance(size, int):
+                size = [size]
             if 'rand' in data:
                 t = tensor_rand(data['rand'], size, **kwargs)
             else:
                 values = data['tensor']
                 t = torch.full(size, values, **kwargs)
         elif 'zeros_like' in data:
+            if dtype:
+                kwargs['dtype'] = dtype
             input_param = process_object(data['zeros_like'], dic)
             t = torch.zeros_like(input_param.tensor, **kwargs)
         elif 'zeros' in data:
@@ -296,6 +304,8 @@ class Parameter(AbstractParameter):
             size = data['zeros']
             t = torch.zeros(size, **kwargs)
         elif 'ones_like' in data:
+            if dtype:
+                kwargs['dtype'] = dtype
             input_param = process_object(data['ones_like'], dic)
             t = torch.ones_like(input_param.tensor, **kwargs)
         elif 'ones' in data:
@@ -306,8 +316,10 @@ class Parameter(AbstractParameter):
         elif 'eye' in data:
             if dtype:
                 kwargs['dtype'] = dtype
-            size = data['eye']
-            t = torch.eye(size, **kwargs)
+            size = data['eye']  # an int or a list of two ints
+            if isinstance(size, int):
+                size = [size]
+            t = torch.eye(*size, **kwargs)
         elif 'eye_like' in data:
             # input_param should be 1 or 2 dimensional
             if dtype:
